@@ -117,6 +117,10 @@ var $mapDelete = (m, key) => {
 // Returns a method bound to the receiver instance, safe to invoke as a 
 // standalone function. Bound function is cached for later reuse.
 var $methodVal = (recv, name) => {
+    if (recv === $ifaceNil) {
+        /* a method value of a nil interface panics when it is evaluated, not when it is called */
+        $throwNilPointerError();
+    }
     var vals = recv.$methodVals || {};
     if (Object.isExtensible(recv)) {
       recv.$methodVals = vals; /* noop for primitives */
